@@ -30,9 +30,10 @@ def runTau (s : State) (t : Nat) : Nat → State
       | none => s
     | _ => s
 
-def showRes : Res → String
+/-- results are reported with the table's position in the chain -/
+def showRes (s : State) : Res → String
   | .none => "end"
-  | .slot tb i ins => s!"{tb} {i} {if ins then 1 else 0}"
+  | .slot tb i ins => s!"{s.posOf tb} {i} {if ins then 1 else 0}"
 
 def kindOf : String → Option Kind
   | "templace" => some .tEmplace | "tfind" => some .tFind
@@ -53,18 +54,11 @@ def stepObs (r : RState) (o : Obs) : Except String RState :=
   | some (.ev ("ret" :: k :: res)) =>
     match s.pc t, kindOf k with
     | .ret f rr, some k =>
-      let want := if f.kind.isFind then (match rr with | .slot tb i _ => s!"{tb} {i}" | .none => "end") else showRes rr
+      let want := if f.kind.isFind then (match rr with | .slot tb i _ => s!"{s.posOf tb} {i}" | .none => "end") else showRes s rr
       if f.kind ≠ k then .error "return from another kind of call"
       else if " ".intercalate res = want then .ok { r with s := doRet s t f rr }
       else .error s!"implementation returned `{" ".intercalate res}`, model says `{want}`"
     | p, _ => .error s!"implementation returned but the model thread is at {reprStr p}"
-  | some (.ev ["alloc", id, n]) =>
-    -- the harness's allocation hook: the node just created by `new TableNode` in this thread
-    match s.pc t with
-    | .nextCas _ nw =>
-      if some nw = id.toNat? ∧ some (s.node nw).tab.n = n.toNat? then .ok r
-      else .error s!"allocation of node {id} with {n} buckets, model allocated node {nw} with {(s.node nw).tab.n}"
-    | p => .error s!"allocation while the model thread is at {reprStr p}"
   | some (.ev ("ORACLE" :: _)) | some (.ev ("stats" :: _)) | some (.ev ("note" :: _)) => .ok r
   | some (.spawn _) | some (.join _) | some .exit => .ok r
   | some (.race ws) => .error s!"HB race monitor: {" ".intercalate ws}"
